@@ -161,4 +161,40 @@ theorem pathState_reach {sys : Sys} {p : List (Nat × Nat)} (h : pathOk sys p = 
       exact runPath_reach (Reach.init (by rw [hi]; simp)) hr
   · simp at h
 
+/-! ## `settles` in terms of steps -/
+
+/-- the task thread's own steps only -/
+inductive TaskSteps (sys : Sys) : St → St → Prop
+  | refl {s} : TaskSteps sys s s
+  | step {s t u} : t ∈ stepTh sys s 0 → TaskSteps sys t u → TaskSteps sys s u
+
+theorem TaskSteps.reach {sys : Sys} {s u : St} (h : TaskSteps sys s u) (hs : Reach sys s) : Reach sys u := by
+  induction h with
+  | refl => exact hs
+  | step ht _ ih => exact ih (Reach.step hs (stepTh_mem_succs ht))
+
+/-- if `settles` holds, the task thread reaches a finished state satisfying `good` by its own steps alone -/
+theorem settles_reaches {sys : Sys} {good : St → Bool} : ∀ {n : Nat} {s : St}, settles sys good n s = true →
+    ∃ u, TaskSteps sys s u ∧ good u = true ∧ (∃ t, taskTh u = some t ∧ t.finished = true)
+  | 0, s, h => by simp [settles] at h
+  | n+1, s, h => by
+    unfold settles at h
+    cases ht : taskTh s with
+    | none => simp [ht] at h
+    | some t =>
+      simp only [ht] at h
+      by_cases hf : t.finished = true
+      · simp only [hf, if_true] at h
+        exact ⟨s, TaskSteps.refl, h, t, ht, hf⟩
+      · simp only [hf, Bool.false_eq_true, if_false, Bool.and_eq_true, Bool.not_eq_true', List.isEmpty_eq_false_iff,
+          List.all_eq_true] at h
+        obtain ⟨hne, hall⟩ := h
+        obtain ⟨p, hp⟩ := List.exists_mem_of_ne_nil _ hne
+        have hp' := (hall p hp).2
+        obtain ⟨u, hu, hg, hfin⟩ := settles_reaches hp'
+        have hmem : p.2 ∈ stepTh sys s 0 := by
+          simp only [stepTh, List.mem_map]
+          exact ⟨p, (List.mem_filter.1 hp).1, rfl⟩
+        exact ⟨u, TaskSteps.step hmem hu, hg, hfin⟩
+
 end QmiModel.Wake
